@@ -99,10 +99,23 @@ def render(rng, toks, fancy):
         elif t[0] == "s":
             out += (b" " if not fancy else rng.choice([b" ", b" ", b"  ", b"\n"])) + str(len(t[1])).encode() + b" " + t[1]
             first = False
+        elif t[0] == "c":
+            # a comment line: `10` and the rest of the line — also with no text at all
+            if out and out[-1:] not in (b"\n", b"\r"): out += b"\n"
+            out += b"10" + t[1] + t[2]
+            first = True
         if t[0] == "e":
             out += b"\n" if not fancy else rng.choice([b"\n", b"\n", b"\r\n", b" ", b"\n\n"])
             first = True
     return bytes(out)
+
+def add_comments(rng, toks):
+    out = []
+    for t in toks:
+        out.append(t)
+        if t[0] == "e" and rng.random() < 0.25:
+            out.append(("c", rng.choice([b"", b"", b" a comment", b"x", b" 1 2 3", b"\t"]), rng.choice([b"\n", b"\n", b"\r\n", b"\r"])))
+    return out
 
 BAD = [2**31, -2**31 - 1, 2**32, 2**32 - 1, 2**32 + 1, 2**63 - 1, 2**63, 2**63 + 1, 2**64, 2**64 + 1, 10**40, -10**40, 0, -1, 1, 11, 3, 6, 4]
 
@@ -142,6 +155,7 @@ def generate(ctx):
         r = ctx.rng.random()
         fancy = ctx.rng.random() < 0.5
         if r < 0.65: toks = mutate(ctx.rng, toks)
+        if ctx.rng.random() < 0.3: toks = add_comments(ctx.rng, toks)
         text = render(ctx.rng, toks, fancy)
         if r > 0.95:
             text = ctx.rng.choice([text.replace(b"asp 1", b"asp 2", 1), text.replace(b" 0 0", b" 1 0", 1), text[:ctx.rng.randint(0, len(text))],
